@@ -568,6 +568,7 @@ func (f *Fam) checkSlashing(before, after *Snapshot, w []string, fail func(strin
 		case len(inWindow) > 0:
 			// confirmed double signing inside the window: everything is burned, the validator is tombstoned and
 			// jailed for ever (the block did not halt, so the evidence was acted upon)
+			f.jailedAt[a] = -1 // for ever
 			f.extra["c07:conviction-checked"]++
 			if got.Sign() != 0 {
 				fail("conviction-burns-all", "C07:conviction-left-stake", fmt.Sprintf("BeginBlock %d: %s convicted of double signing keeps %s of %s", f.height, a, got, stake))
@@ -598,6 +599,9 @@ func (f *Fam) checkSlashing(before, after *Snapshot, w []string, fail func(strin
 				punished = true
 			}
 			if punished {
+				if jd, ok := paramBig(before, "pos/DowntimeJailDuration"); ok {
+					f.jailedAt[a] = f.now + jd.Int64() // the harness's own record of when this jail term ends
+				}
 				f.extra["c07:downtime-slash-checked"]++
 				if missed[a][0]*1000000 > stake.Int64() {
 					f.extra["c07:downtime-slash-reported-power-above-current"]++
@@ -708,6 +712,14 @@ func (f *Fam) checkTx(before, after *Snapshot, r string, bz []byte, msg sdk.Msg,
 			fail("rejected-leaves-no-trace", "C11:rejected-tx-changed-state", fmt.Sprintf("rejected %s tx (mut=%s) changed more than the fee", t.kind, t.mut))
 		}
 	}
+	// C09: jail terms and tombstones are set by BeginBlock only; no transaction shortens or lifts one
+	for a, sb := range before.Sign {
+		if sa, ok := after.Sign[a]; !ok || sa.Tomb != sb.Tomb || sa.JailedUntil != sb.JailedUntil {
+			fail("jail-term-kept", "C09:jail-term-changed-by-tx", fmt.Sprintf("%s tx changed the signing info of %s: jailed-until %d -> %d, tombstoned %v -> %v (present after: %v)",
+				t.kind, a, sb.JailedUntil, sa.JailedUntil, sb.Tomb, sa.Tomb, ok))
+			break
+		}
+	}
 	accepted := r == "ok" || feePaid // passed the ante handler
 	if accepted {
 		if hx(Keys[t.signer].Addr) != signer {
@@ -727,6 +739,19 @@ func (f *Fam) checkTx(before, after *Snapshot, r string, bz []byte, msg sdk.Msg,
 			if d.LT(t.feeEff()) {
 				fail("fee-from-signer", "C03:fee-not-from-signer", "fee exceeds the signer's balance but the tx passed")
 			}
+		}
+		if t.kind == "unjail" && r == "ok" && t.mode == "deliver" {
+			a := t.f["addr"]
+			f.extra["c09:unjail-accepted"]++
+			if until, ok := f.jailedAt[a]; ok && (until == -1 || f.now < until) {
+				fail("unjail-not-early", "C09:unjail-before-jailed-until", fmt.Sprintf("unjail of %s accepted at %d although it was jailed until %d (-1 = for ever)", a, f.now, until))
+			}
+			if vb, ok := before.Vals[a]; !ok || !vb.Jailed {
+				fail("unjail-only-jailed", "C09:unjail-of-unjailed-accepted", fmt.Sprintf("unjail of %s accepted although it was not a jailed validator", a))
+			} else if min, ok := paramBig(before, "pos/StakeMinimum"); ok && vb.Tokens.BigInt().Cmp(min) < 0 {
+				fail("unjail-min-stake", "C09:unjail-below-minimum-accepted", fmt.Sprintf("unjail of %s accepted with stake %s below the minimum %s", a, vb.Tokens, min))
+			}
+			delete(f.jailedAt, a)
 		}
 		if t.kind == "send" && t.f["to"] == poolAddr && r == "ok" {
 			f.donated = f.donated.Add(mustInt(t.f["amt"]))
